@@ -62,6 +62,11 @@ type ChanV struct {
 	fresh string
 	once  bool // once closed stays closed
 	was   *Term
+	// message queue (go-statement mode: threads run to completion one after the other, so a send never blocks
+	// within the capacity and a receive finds its message or the closed flag)
+	buf        []Value
+	cap        int
+	sent, rcvd int
 }
 
 // Opaque stands for a value the engine does not model (formatted strings, encoder state ...).
